@@ -3,9 +3,9 @@ from lib import core, propgen
 from harness.oracles import all as ALL
 
 ID = 'C04'
-UNITS = ['match_events', 'event_metrics', 'note_matching', 'transcription_scores', 'melody_metrics', 'multipitch_metrics', 'multipitch_resample', 'key_score', 'pattern_scores', 'alignment_scores', 'tempo_detection']
+UNITS = ['match_events', 'event_metrics', 'note_matching', 'transcription_scores', 'melody_metrics', 'multipitch_metrics', 'multipitch_resample', 'key_score', 'pattern_scores', 'alignment_scores', 'tempo_detection', 'beat_q', 'beat_ig']
 TRANSLATORS = []
-NOT_COVERED = 'Partial: Cemgil, Goto, P-score, continuity, information gain (beat module in progress); default parameter values are not yet tied by the translator.'
+NOT_COVERED = 'Partial: Goto and continuity are their own (procedural) definitions, tied by correspondence only; the Gaussian of Cemgil and the entropy of information gain are outside the exact model; default parameter values are not yet tied by the translator.'
 ASSUMPTIONS = ['exact-arithmetic lattices for the correspondence (DESIGN.md section 2.1); NumPy/SciPy primitives as modelled per module']
 
 oracle_search = propgen.budgeted([ALL.for_property(ID)])
@@ -29,6 +29,6 @@ REFUTED = []
 MANIFEST = {
     'text': 'Refinement theorems: the algorithmic model equals a declarative definition: hits = size of a maximum matching of the stated tolerance predicate (events, notes), the five melody measures = sum-over-frames formulas, multipitch accounting and nearest-frame resampling, key table by kernel computation, tempo / alignment / pattern scores written out on their definitions.',
     'design_ref': 'DESIGN.md section 6, C04',
-    'level_note': 'Trusted: Coq kernel + vm_compute; correspondence harness per modelled metric; NumPy/SciPy primitives as modelled. ' + 'Partial: Cemgil, Goto, P-score, continuity, information gain (beat module in progress); default parameter values are not yet tied by the translator.',
+    'level_note': 'Trusted: Coq kernel + vm_compute; correspondence harness per modelled metric; NumPy/SciPy primitives as modelled. ' + 'Partial: Goto and continuity are their own (procedural) definitions, tied by correspondence only; the Gaussian of Cemgil and the entropy of information gain are outside the exact model; default parameter values are not yet tied by the translator.',
     'technique': 'Coq proof on Gallina models of the task metrics (maximum-matching size lemmas, exact rational arithmetic); model/code correspondence by vm_compute',
 }
